@@ -12,7 +12,9 @@
    NOT proved (T16b-d of DESIGN; the property is PARTIAL):
      - the geometric reading in exact arithmetic (the end point lies at
        distance L - len_{k-1} from vertex k-1, so the polyline length is L);
-     - polyline_len(simplified Catmull) + optimized_len = polyline_len(unsimplified);
+       (T16c -- polyline_len(simplified Catmull) + optimized_len =
+       polyline_len(unsimplified), optimized_len >= 0 -- IS proved below, over the
+       reals, on the loop shared with the model);
      - monotonicity / finiteness of the cumulative lengths under rounding.
    These are monitored by the oracle of harness/src/c16.rs (cut/extension
    geometry in f64, lengths start at 0 / monotone within 1e-5 / finite,
@@ -20,7 +22,8 @@
 
    Deviations of the code from the property text, both recorded as known
    findings with witnesses below: D9 (case (i) with natural <> L) and D11. *)
-From RM Require Import Model.ControlPoints Model.Curve Proofs.BezierRefine Proofs.LengthFacts.
+From Coq Require Import Reals.
+From RM Require Import Model.ControlPoints Model.Curve Proofs.BezierRefine Proofs.LengthFacts Proofs.SimplifyExact.
 Open Scope Z_scope.
 
 (* T16a: the case analysis.  [natural path opt] = 0, then the running sums of
@@ -103,6 +106,29 @@ Theorem C16_near_natural_keeps_natural :
   calculate_length path (Some L) opt = Done (path, natural path opt).
 Proof. exact near_natural_keeps_natural. Qed.
 Print Assumptions C16_near_natural_keeps_natural.
+
+(* T16c [exact arithmetic]: the osu!-mode Catmull simplification loop is
+   written once over abstract operations (Model/Curve.v: simplify_loop_g; the
+   model is its IEEE instance).  Over the reals, for any distance with
+   d(x,x) = 0 and the triangle inequality and for ANY "farther than 6 px"
+   test: the kept polyline's length plus the surplus added to optimized_len is
+   the length of the unsimplified polyline, and the surplus is >= 0 -- the
+   simplification leaves the total length unchanged *)
+Theorem C16_simplification_keeps_total_length :
+  forall (P : Type) (dist : P -> P -> R) (far : R -> bool),
+  (forall x, dist x x = 0%R) -> (forall x y z, (dist x z <= dist x y + dist y z)%R) ->
+  forall sub_path opt dummy,
+  let '(kept, opt') := simplify_loop_g dist Rplus Rminus 0%R far sub_path 0 (Z.of_nat (length sub_path))
+                                       dummy None 0%R [] opt in
+  (plen dist kept + (opt' - opt) = plen dist sub_path /\ 0 <= opt' - opt)%R.
+Proof. exact @simplify_surplus_identity. Qed.
+Print Assumptions C16_simplification_keeps_total_length.
+
+Theorem C16_model_uses_the_same_loop :
+  simplify_loop = simplify_loop_g (fun a b => f64_of_f32 (pdist a b)) D.add D.sub D.zero
+                                  (fun x => D.gt x catmull_simplify_dist).
+Proof. exact model_uses_same_loop. Qed.
+Print Assumptions C16_model_uses_the_same_loop.
 
 (* the pure curve is calculate_length of the pure path *)
 Theorem C16_curve_is_calculate_length_of_path :
